@@ -55,6 +55,28 @@ def cliRunOp (level path extOk src stdin : String) : String :=
   let srcO := if src = "INVALID" then none else some (decText src)
   cliOutStr (cliRun (N := HyN.NumI) jumpBudget 8000 level.toNat! (decText path) (extOk = "1") srcO (decText stdin))
 
+/-- bytes as a hex string (`-` = none) -/
+def decHexBytes (s : String) : List UInt8 :=
+  if s = "-" then [] else
+  let rec go : List Char → List UInt8
+    | a :: b :: rest => UInt8.ofNat (hexVal a * 16 + hexVal b) :: go rest
+    | _ => []
+  go s.toList
+
+/-- the lines the model makes of a byte stream, up to and including the first undecodable one (`!`) -/
+def decLinesOp (hex : String) : String :=
+  let rec go : List (List Char) → List String
+    | [] => []
+    | [] :: _ => ["!"]
+    | l :: ls => encText l :: go ls
+  let r := go (decodeLines (decHexBytes hex))
+  if r.isEmpty then "-" else "|".intercalate r
+
+/-- `hyeong run` with any bytes on standard input -/
+def cliRunBytesOp (level path extOk src stdinHex : String) : String :=
+  let srcO := if src = "INVALID" then none else some (decText src)
+  cliOutStr (cliRunBytes (N := HyN.NumI) jumpBudget 8000 level.toNat! (decText path) (extOk = "1") srcO (decHexBytes stdinHex))
+
 def cliCheckOp (path fname extOk src : String) : String :=
   let srcO := if src = "INVALID" then none else some (decText src)
   cliOutStr (some (cliCheck (decText path) (decText fname) (extOk = "1") srcO))
